@@ -205,6 +205,22 @@ def run(ctx):
             continue
         for fname in framer_names:
             check_client(rep, fname, m, resp)
+    # Return Query Data with N data words (a conformant server echoes them all): the prediction must be 3 + 2N.  The
+    # library's own server cannot decode such a request (known finding diag-request-multiword of C01), so the real reply
+    # is the echo the specification prescribes, built with the library's response class.
+    multi = [{'t': 'diag', 'sub': 0, 'message': {'k': 'list', 'ws': [(7 * i + n) % 65536 for i in range(n)]}} for n in (0, 1, 2, 3, 5, 60, 120)]
+    mans = ctx.driver.query([{'op': 'predict', 'req': m, 'plus': plus_words} for m in multi])
+    for m, a in zip(multi, mans):
+        case = {'kind': 'predict-diag-multi', 'req': m}
+        robj = msggen.mk_req(m)
+        pred = robj.get_response_pdu_size()
+        echo = dm.ReturnQueryDataResponse(list(m['message']['ws']))
+        real = 1 + len(echo.encode())
+        rep.case(('diag-multi', len(m['message']['ws'])), nontrivial=True, tag='predict:diag-multiword')
+        rep.compare(case, {'pred': pred}, {'pred': a['size']}, 'multi-word Return Query Data prediction vs model')
+        if pred != real:
+            rep.violation('predicted reply PDU size differs from the real reply', case, finding=classify(m, 'pdu'),
+                          predicted=pred, real=real)
     # exception replies through every framing
     for fname in framer_names:
         for m in (reqs[0], reqs[4000], {'t': 'writeRegister', 'address': 1, 'value': 2}, dreqs[0]):
@@ -231,4 +247,21 @@ def check_client(rep, fname, m, resp, exception=False):
 
 
 def replay(ctx, payload):
-    return 're-run the check: C14 is exhaustive and deterministic'
+    """the check is exhaustive and deterministic (a few seconds): a replay re-runs it and reports whether the recorded
+    case (or, failing that, any case) still violates the property"""
+    rep = run(ctx)
+    want = canon_case(payload.get('case'))
+    unknown = [v for v in rep.violations if v['finding'] is None]
+    same = [v for v in unknown if canon_case(v['case']) == want]
+    if same:
+        return same[0]['what']
+    if unknown:
+        return unknown[0]['what'] + ' (another case than the recorded one)'
+    if rep.disagreements:
+        return 'model/implementation disagreement'
+    return None
+
+
+def canon_case(c):
+    import json
+    return json.dumps(c, sort_keys=True, default=str)
